@@ -197,12 +197,21 @@ def run_fonts(report, rng):
     painted = H + '<path d="M12,17 L61,17 L61,73 L12,73 Z" fill="red"/><path d="M40,-30 L70,-30 L55,10 Z" fill="blue"/></svg>'
     blank = H + "<defs/></svg>"
     outside = H + '<path d="M150,150 L190,150 L190,190 L150,190 Z" fill="green"/></svg>'
-    srcs = [(build.filename_for((0x1F600 + k,)), t, (0x1F600 + k,)) for k, t in enumerate([painted, blank, outside, painted.replace("red", "#123456")])]
+    # a glyph whose content reaches a little further right and up than an earlier glyph's (less than a quantisation step)
+    bigger = H + '<path d="M12,15.6 L62.3,15.6 L62.3,73 L12,73 Z" fill="#884400"/><path d="M40,-30 L70,-30 L55,10 Z" fill="blue"/></svg>'
+    # artwork that nearly fills the viewBox (a user transform then carries it beyond the glyph's cell)
+    full = H + '<path d="M2,2 L98,2 L98,98 L2,98 Z" fill="#008800"/></svg>'
+    srcs = [(build.filename_for((0x1F600 + k,)), t, (0x1F600 + k,)) for k, t in enumerate([painted, blank, outside, painted.replace("red", "#123456"), bigger, full])]
     plans = []
     for upem, q in ((1000, None), (1024, None), (1000, 1), (2048, 37), (1024, 64)):
         plans.append((dict(color_format="glyf_colr_1", upem=upem, ascender=round(upem * 0.8), descender=-round(upem * 0.2), clipbox_quantization=q), None))
     plans.append((dict(color_format="glyf_colr_1", upem=1024, ascender=820, descender=-204, clipbox_quantization=37), "flag"))
     plans.append((dict(color_format="cff_colr_1", output_file="Font.otf", upem=2048, ascender=1640, descender=-408, clipbox_quantization=50, clip_to_viewbox=False), "file"))
+    # user transforms (the box follows the transformed content, whatever the viewBox clipping did before)
+    from picosvg.svg_transform import Affine2D
+
+    for t in (Affine2D(1.1, 0, 0, 1.1, 0, 0), Affine2D(1, 0, 0, 1, 0, 120), Affine2D(1, 0, 0, 1, -80, 0)):
+        plans.append((dict(color_format="glyf_colr_1", upem=1000, ascender=800, descender=-200, width=1000, transform=t, clipbox_quantization=rng.choice([None, 1, 32])), None))
     # "do not clip" given as a flag (a falsy value), and next to another configuration that does clip the same files
     plans.append((dict(color_format="glyf_colr_1", upem=1000, ascender=800, descender=-200, clip_to_viewbox=False), "flag"))
     plans.append((dict(color_format="glyf_colr_1", upem=1000, ascender=800, descender=-200, clip_to_viewbox=False), "file",
